@@ -86,6 +86,22 @@ fn run_one(am: &mut Amortised, case: &Case, profile: Profile, full: &Compiled, f
             any_returned = true;
         }
         if !(f.outcome.reverted() && o.outcome.reverted()) && !(f.outcome == o.outcome && f.logs == o.logs) {
+            // removal of dead invalid arithmetic (documented undefined behaviour) happens at this
+            // level too (asm DCE / constant propagation): same arbitration as C01-C03
+            if f.outcome.reverted() != o.outcome.reverted() {
+                let non_reverting = if f.outcome.reverted() { &o } else { f };
+                match compare_case(case, k, non_reverting) {
+                    Cmp::DeadUbTolerated => {
+                        res.count("dead_invalid_arithmetic_removed_tolerated");
+                        continue;
+                    }
+                    Cmp::Inconclusive(n) => {
+                        res.inconclusive(n);
+                        continue;
+                    }
+                    _ => {}
+                }
+            }
             res.violation(
                 format!("asm-opt-changes-behaviour:{name}:{:016x}", hash64(case.src.as_bytes())),
                 format!("[{} input {k}] fully optimised: {} / mask {name}: {}", profile.name(), f.short(), o.short()),
